@@ -10,7 +10,7 @@ sched.install_lock_factory()
 import datetime as _dt  # noqa: E402
 import time as _time  # noqa: E402
 
-from pyoda_time import CalendarSystem, DateTimeZone, DateTimeZoneProviders, Duration, Instant, SystemClock  # noqa: E402
+from pyoda_time import CalendarSystem, DateTimeZone, DateTimeZoneProviders, Duration, Instant, SystemClock, ZonedClock  # noqa: E402
 from pyoda_time.testing import FakeClock  # noqa: E402
 
 from vf.core.evidence import Acc, exc_origin  # noqa: E402
@@ -414,36 +414,51 @@ def zoned_and_system(acc: Acc):
                 1_616_893_200 * 10**9, 1_616_893_200 * 10**9 - 1, 1_616_893_200 * 10**9 + 1,  # London spring forward 2021-03-28 01:00Z
                 4_102_444_800 * 10**9 + 123_456_789, -2_208_988_800 * 10**9 + 999_999_999]
     epoch = _dt.datetime(1970, 1, 1)
+    def check_zc(zc, ns, inst, z, cal, route):
+        acc.count(states=1, evaluations=1, transitions=6, nontrivial=1)
+        off = z.get_utc_offset(inst).seconds
+        local_ns = ns + off * 10**9
+        days, nod = divmod(local_ns, NS_DAY)
+        pyd = (epoch + _dt.timedelta(days=days)).date()
+        try:
+            if ins_ns(zc.get_current_instant()) != ns:
+                acc.violation("C19/zoned%s/instant" % route, "ZonedClock.get_current_instant differs from the wrapped clock", {"ns": ns, "zone": z.id, "route": route})
+            zdt = zc.get_current_zoned_date_time()
+            ldt = zc.get_current_local_date_time()
+            odt = zc.get_current_offset_date_time()
+            d = zc.get_current_date()
+            t = zc.get_curent_time_of_day()
+            iso_d = d.with_calendar(CalendarSystem.iso)
+            got = (ins_ns(zdt.to_instant()), zdt.zone.id, zdt.calendar.id, zdt.offset.seconds,
+                   ins_ns(odt.to_instant()), odt.offset.seconds, odt.calendar.id,
+                   (iso_d.year, iso_d.month, iso_d.day), d.calendar.id, t.nanosecond_of_day,
+                   ldt.date == d, ldt.time_of_day == t, zdt.local_date_time == ldt, odt.local_date_time == ldt)
+            exp = (ns, z.id, cal.id, off, ns, off, cal.id, (pyd.year, pyd.month, pyd.day), cal.id, nod, True, True, True, True)
+            if got != exp:
+                acc.violation("C19/zoned%s/render/%s" % (route, cal.id), "ZonedClock%s getters give %r, model %r" % (route and " obtained through " + route, got, exp),
+                              {"ns": ns, "zone": z.id, "calendar": cal.id, "route": route})
+            acc.outcome("zoned-ok" + route)
+        except Exception as e:  # noqa: BLE001
+            acc.lib_exception("C19/zoned" + route, e, {"ns": ns, "zone": z.id, "calendar": cal.id, "route": route})
+
     for ns in instants:
         inst = mk_instant(ns)
         for z in zones:
             for cal in cals:
                 fc = FakeClock(inst, Duration.from_nanoseconds(0))
                 zc = fc.in_zone(z, cal)
-                acc.count(states=1, evaluations=1, transitions=6, nontrivial=1)
-                off = z.get_utc_offset(inst).seconds
-                local_ns = ns + off * 10**9
-                days, nod = divmod(local_ns, NS_DAY)
-                pyd = (epoch + _dt.timedelta(days=days)).date()
+                check_zc(zc, ns, inst, z, cal, "")
+                # a ZonedClock is itself a clock: the IClock conveniences applied to it must behave as on the wrapped clock
+                # (documented default calendar ISO, whatever the calendar of the receiver)
                 try:
-                    if ins_ns(zc.get_current_instant()) != ns:
-                        acc.violation("C19/zoned/instant", "ZonedClock.get_current_instant differs from the wrapped clock", {"ns": ns, "zone": z.id})
-                    zdt = zc.get_current_zoned_date_time()
-                    ldt = zc.get_current_local_date_time()
-                    odt = zc.get_current_offset_date_time()
-                    d = zc.get_current_date()
-                    t = zc.get_curent_time_of_day()
-                    iso_d = d.with_calendar(CalendarSystem.iso)
-                    got = (ins_ns(zdt.to_instant()), zdt.zone.id, zdt.calendar.id, zdt.offset.seconds,
-                           ins_ns(odt.to_instant()), odt.offset.seconds, odt.calendar.id,
-                           (iso_d.year, iso_d.month, iso_d.day), d.calendar.id, t.nanosecond_of_day,
-                           ldt.date == d, ldt.time_of_day == t, zdt.local_date_time == ldt, odt.local_date_time == ldt)
-                    exp = (ns, z.id, cal.id, off, ns, off, cal.id, (pyd.year, pyd.month, pyd.day), cal.id, nod, True, True, True, True)
-                    if got != exp:
-                        acc.violation("C19/zoned/render/%s" % cal.id, "ZonedClock getters give %r, model %r" % (got, exp), {"ns": ns, "zone": z.id, "calendar": cal.id})
-                    acc.outcome("zoned-ok")
+                    z2 = zones[(zones.index(z) + 1) % len(zones)]
+                    check_zc(zc.in_zone(z2), ns, inst, z2, CalendarSystem.iso, "/nested:in_zone")
+                    check_zc(zc.in_zone(z2, CalendarSystem.coptic), ns, inst, z2, CalendarSystem.coptic, "/nested:in_zone+calendar")
+                    check_zc(zc.in_utc(), ns, inst, DateTimeZone.utc, CalendarSystem.iso, "/nested:in_utc")
+                    check_zc(fc.in_utc(), ns, inst, DateTimeZone.utc, CalendarSystem.iso, "/in_utc")
+                    check_zc(ZonedClock(zc, z2, cal), ns, inst, z2, cal, "/nested:ctor")
                 except Exception as e:  # noqa: BLE001
-                    acc.lib_exception("C19/zoned", e, {"ns": ns, "zone": z.id, "calendar": cal.id})
+                    acc.lib_exception("C19/zoned/nested", e, {"ns": ns, "zone": z.id, "calendar": cal.id})
     # SystemClock: the OS time behind a seam
     real = _time.time_ns
     try:
